@@ -55,11 +55,12 @@ def gen_random(rng: random.Random, cfgs: list[str]) -> dict:
     if prim == "sem":
         init = rng.choice([0, 1, 1, 2, 2, 3, 4])
         maxv = rng.choice([None, None, init, init + 1])
-        res = {"prim": "sem", "init": init, "max": maxv, "fast": rng.random() < 0.4}
+        res = {"prim": "sem", "init": init, "max": maxv, "fast": rng.random() < 0.4,
+               "outside": rng.random() < 0.3}  # fmt: skip
         kinds = ["acquire", "acquire", "ctx", "nowait"]
     else:
         init = rng.choice([0, 1, 1, 2, 2, 3, INF])
-        res = {"prim": "lim", "init": init}
+        res = {"prim": "lim", "init": init, "outside": rng.random() < 0.3}
         kinds = ["acquire", "acquire", "ctx", "nowait", "behalf", "behalf_nowait"]
 
     actors = []
@@ -101,6 +102,8 @@ def sweep_cases(cfgs: list[str]):  # noqa: ANN201
             {"prim": "sem", "init": 1, "max": None, "fast": False},
             {"prim": "sem", "init": 1, "max": 1, "fast": True},
             {"prim": "lim", "init": 1},
+            {"prim": "sem", "init": 1, "max": 1, "fast": False, "outside": True},
+            {"prim": "lim", "init": 1, "outside": True},
         ):
             for hold in (0, 1, 2):
                 for mode in ("scope", "native", "native-in-group"):
@@ -157,13 +160,22 @@ def execute(case: dict) -> dict:
     def window(name: str) -> None:
         out["windows"][name] = out["windows"].get(name, 0) + 1
 
+    def make():  # noqa: ANN202
+        if is_sem:
+            return anyio.Semaphore(rs["init"], max_value=rs["max"], fast_acquire=rs["fast"])
+
+        return anyio.CapacityLimiter(_tot(rs["init"]))
+
+    # created while no event loop runs (module-level primitives): AnyIO hands out an adapter
+    # that builds the backend object on first use - it has to behave exactly the same
+    pre = make() if rs.get("outside") else None
+    if pre is not None:
+        window("primitive_created_outside_the_loop:" + type(pre).__name__)
+
     async def main() -> None:
         h = Harness()
         h.freeze_on_abort(viol)
-        if is_sem:
-            res = anyio.Semaphore(rs["init"], max_value=rs["max"], fast_acquire=rs["fast"])
-        else:
-            res = anyio.CapacityLimiter(_tot(rs["init"]))
+        res = pre if pre is not None else make()
 
         # monitor state -- updated only at the API boundary
         st = {"permits": rs["init"] if is_sem else None, "held": 0}
